@@ -22,6 +22,8 @@ def main():
     c = Check("C02")
     ok = c.proofs("Nq.Props.C02", drivers=["drv_c02"])
     s = c.build_repo()
+    if s.ok:
+        c.simcheck(s, 400 if c.tier == "quick" else 4000)
     stats, samples, disagree, oracle, errors = {}, [], [], [], []
     neighbourhood = None
     if s.ok and c.driver_ok:
